@@ -202,6 +202,26 @@ def tlaps(module, wd, timeout=900, threads=8):
     return int(m.group(1))
 
 
+def keep_complete_lines(path, drop_last_run=False):
+    """after a driver died in the middle of a write: keep only the lines that are complete JSON (and, for a trace,
+    optionally drop the events of the run that was in flight)"""
+    if not os.path.exists(path):
+        return
+    good = []
+    for l in open(path, errors="replace").read().split("\n"):
+        if not l.strip():
+            continue
+        try:
+            json.loads(l); good.append(l)
+        except ValueError:
+            break
+    if drop_last_run:
+        starts = [i for i, l in enumerate(good) if '"ev":"reset"' in l.replace('": "', '":"')]
+        if starts:
+            good = good[:starts[-1]]
+    open(path, "w").write("\n".join(good) + ("\n" if good else ""))
+
+
 class Probe:
     """Stands in for a Verdict when a comparison itself is tested: the check feeds deliberately corrupted
     observations through the same judging code and every one of them must be flagged (binding self-test of the
